@@ -43,9 +43,9 @@ def prop(pid, driver, design, gens=('GenArith.v', 'GenLoops.v'), eio=False):
     PROPS[pid] = dict(driver=driver, design=design, gens=gens, eio=eio)
 
 
-prop('C01', 'c01', '4 (C01)')
-prop('C02', 'c02', '4 (C02)')
-prop('C03', 'c03', '4 (C03)')
+prop('C01', 'c01', '4 (C01)', gens=('GenArith.v', 'GenLoops.v', 'GenSerMethods.v', 'GenDeMethods.v'))
+prop('C02', 'c02', '4 (C02)', gens=('GenArith.v', 'GenLoops.v', 'GenSerMethods.v'))
+prop('C03', 'c03', '4 (C03)', gens=('GenArith.v', 'GenLoops.v', 'GenDeMethods.v'))
 prop('C04', 'c04', '4 (C04)')
 prop('C05', 'c05', '4 (C05)')
 prop('C06', 'c06', '5 (C06)')
